@@ -881,6 +881,29 @@ def rule_m4(repo, res):
         res.oblige("M4", f"{CONTAINER}.{nm} inserts at key_index(key, instance){' + 1' if off != 'index' else ''}", ok=ok)
         if not ok:
             F(nm, off, f"{nm} no longer inserts at `{off}` with index = key_index(key, instance)")
+    # the occurrence selected when none is named is the first one, in every method that takes `instance` (both families)
+    for cname_ in (CONTAINER, "PVLMultiDict"):
+        if cname_ not in repo.classes:
+            continue
+        for nm in ("key_index", "insert_after", "insert_before"):
+            f_ = repo.classes[cname_].methods.get(nm)
+            if f_ is None:
+                continue
+            a_ = f_.args
+            names_ = [x.arg for x in a_.args]
+            dflt = dict(zip(names_[len(names_) - len(a_.defaults):], a_.defaults))
+            # the occurrence parameter: `instance` (or, in key_index, the parameter after the key)
+            pname_ = "instance" if "instance" in names_ else (names_[2] if nm == "key_index" and len(names_) >= 3 else None)
+            if pname_ is None:
+                continue
+            d_ = dflt.get(pname_)
+            ok = isinstance(d_, ast.Constant) and d_.value == 0 and not isinstance(d_.value, bool)
+            res.oblige("M4", f"{cname_}.{nm}: the default occurrence (instance) is the first, 0", ok=ok)
+            if not ok:
+                res.add(Finding("M4", f"{cname_}.{nm}", "default instance", f"{cname_}.{nm} defaults `instance` to "
+                                f"{norm(d_) if d_ is not None else 'nothing'} instead of 0: without an explicit instance the pair goes "
+                                "next to another occurrence of a repeated key than documented (and than in the sibling methods)",
+                                where=f"pvl/collections.py:{f_.lineno}"))
     fn = M["key_index"]
     ok = any(isinstance(r, ast.Return) and isinstance(r.value, ast.Subscript) and norm(r.value.slice) == "instance" for r in ast.walk(fn)) and \
         any(isinstance(c, ast.Compare) and isinstance(c.ops[0], ast.Eq) and "key" in {norm(c.left), norm(c.comparators[0])} for c in ast.walk(fn))
